@@ -60,11 +60,20 @@ Fixpoint combine_loop (ids : list N) (files : list dfile) (i : nat) (out : frag)
       combine_loop ids rest (S i) out'
   end.
 
+(* Fragment.Encode without optimisation.  After fix 1704b4c MoofBox.Encode no longer dereferences a missing first
+   traf: a fragment WITHOUT any traf (newTrackIDs empty) is encoded (C05FragModel.encode_frag carries the text before
+   that fix for this corner: Panic); with at least one traf this is C05's encode_frag *)
+Definition encode_frag_nz (fr : frag) : res frag :=
+  match fr_trafs fr with
+  | [] => Ok (fr_with fr [] (md_size_touch (md_size_touch (fr_mdat fr))) (fr_next fr))
+  | _ => encode_frag false fr
+  end.
+
 (* combineMediaSegments + writeSeg: no file at all leaves combinedSeg nil, and Encode dereferences it *)
 Definition combine_media (ids : list N) (files : list dfile) : res frag :=
   match files with
   | [] => Panic
-  | _ => do fr <- combine_loop ids files 0 (create_multi ids); encode_frag false fr
+  | _ => do fr <- combine_loop ids files 0 (create_multi ids); encode_frag_nz fr
   end.
 
 (* ------------------------------------------------------------------ the guard of the property text *)
